@@ -75,6 +75,19 @@ def _vacuity(recs):
   return kinds, rules, stages
 
 
+def _generated_variants(recs):
+  """Histories that are replayed a second time with the calls made by really converted call sites:
+  those whose options are the call options of a function scope, in an ENABLED context."""
+  out = []
+  for r in recs:
+    if r['opt'].startswith('s_') and r['opt2'].startswith('s_') and r['ctx'] == 'ENABLED' \
+        and not r['kind'].startswith('bi_'):
+      g = dict(r)
+      g['_generated'] = True
+      out.append(g)
+  return out
+
+
 def _replay_all(rep, recs, procs, scratch):
   jobs = []
   indexed = list(enumerate(recs))
@@ -127,9 +140,11 @@ def run(rep):
   rep.set('fault_points', sorted({r['fault'] for r in recs}))
   rep.set('modules', len({tuple(r['mod']) for r in recs}))
   rep.set('exhaustive_within_bounds', True)
+  gen = _generated_variants(recs)
+  rep.set('histories_through_generated_call_sites', len(gen))
   scratch = common.scratch('c13')
   try:
-    _replay_all(rep, recs, procs, scratch)
+    _replay_all(rep, recs + gen, procs, scratch)
   finally:
     common.rmtree(scratch)
   for r in recs[:: max(1, len(recs) // 5)][:5]:
